@@ -17,8 +17,13 @@ FITS_SIGNATURE = (b"\x53\x49\x4d\x50\x4c\x45\x20\x20\x3d\x20\x20\x20\x20\x20"
 
 def is_fits(filename, mode='r'):
     if mode == 'r' and os.path.exists(filename):
-        fileobj = open(filename, 'rb')
-        sig = fileobj.read(30)
+        with open(filename, 'rb') as fileobj:
+            sig = fileobj.read(30)
+        if sig[:2] == b'\x1f\x8b':
+            # gzip-compressed (written as e.g. '.fits.gz'): look inside
+            import gzip
+            with gzip.open(filename, 'rb') as fileobj:
+                sig = fileobj.read(30)
         return sig == FITS_SIGNATURE
     elif filename.lower().endswith(('.fits', '.fits.gz', '.fit', '.fit.gz')):
         return True
